@@ -33,6 +33,7 @@ type c10Act struct {
 	Topic  int    `json:"t"`
 	Wait   int    `json:"w,omitempty"`
 	User   int    `json:"u,omitempty"`
+	Mode   string `json:"m,omitempty"` // ban: the grant the owner leaves the member with (no J)
 }
 
 type c10Prog struct {
@@ -101,6 +102,24 @@ func genC10(rt *rapid.T) c10Prog {
 				break
 			}
 			first += p.Sc.Sessions[u]
+		}
+	}
+	// second scripted tail, one run in three (drawn last): an attached member loses J by the owner's hand (its
+	// sessions are evicted, the subscription stays), is granted JRWPS again, attaches and leaves. The per-user online
+	// counter has to follow every one of these steps (seeded change C10-m3).
+	if rapid.IntRange(0, 2).Draw(rt, "tail2") == 0 && len(p.Sc.Groups) > 0 {
+		g := rapid.IntRange(0, 3).Draw(rt, "tail2topic") % len(p.Sc.Groups)
+		tu := rapid.IntRange(0, 3).Draw(rt, "tail2user") % p.Sc.NUsers
+		mode := rapid.SampledFrom([]string{"RWPS", "RWPS", "RP", "N"}).Draw(rt, "tail2mode")
+		if tu != p.Sc.Groups[g].Owner && tu != obs {
+			first := 0
+			for u := 0; u < tu; u++ {
+				first += p.Sc.Sessions[u]
+			}
+			p.Acts = append(p.Acts, c10Act{Client: first, Kind: "on"}, c10Act{Client: first, Kind: "subt", Topic: g},
+				c10Act{Kind: "ban", Topic: g, User: tu, Mode: mode}, c10Act{Kind: "wait", Wait: 1},
+				c10Act{Kind: "invite", Topic: g, User: tu}, c10Act{Client: first, Kind: "subt", Topic: g},
+				c10Act{Client: first, Kind: "leavet", Topic: g}, c10Act{Kind: "wait", Wait: 1})
 		}
 	}
 	return p
@@ -406,7 +425,7 @@ func runC10(t *testing.T, sched simrt.Schedule, prog c10Prog) ([]Violation, RunS
 					}
 					ops = []*Op{opLeave(pname, false)}
 				}
-			case "evict", "invite":
+			case "evict", "invite", "ban":
 				if len(sc.Groups) == 0 {
 					continue
 				}
@@ -419,6 +438,9 @@ func runC10(t *testing.T, sched simrt.Schedule, prog c10Prog) ([]Violation, RunS
 				c = oc
 				if a.Kind == "evict" {
 					ops = []*Op{opSub(fmt.Sprintf("@grp%d", g), "", ""), opDelSub(fmt.Sprintf("@grp%d", g), fmt.Sprintf("@usr%d", tu))}
+				} else if a.Kind == "ban" {
+					simrt.Probe("c10.ban")
+					ops = []*Op{opSub(fmt.Sprintf("@grp%d", g), "", ""), opSetSub(fmt.Sprintf("@grp%d", g), fmt.Sprintf("@usr%d", tu), a.Mode)}
 				} else {
 					ops = []*Op{opSub(fmt.Sprintf("@grp%d", g), "", ""), opSetSub(fmt.Sprintf("@grp%d", g), fmt.Sprintf("@usr%d", tu), "JRWPS")}
 				}
